@@ -295,6 +295,14 @@ def gen_expiry(seed, big):
                     (lambda e, t, c: lambda r: None if r.get('ok') and r.get('output') == e else f'expiry decision wrong around a leap second to={t} now={c}: ' + json.dumps(r, ensure_ascii=False)[:160])(exp, to, cur)))
     # spellings chrono's "%Y-%m-%d %H:%M:%S" accepts besides the canonical one (fields without zero padding): a date is a
     # date however it is spelled
+    # ... and is compared as an instant, not as text
+    for to, cur, ready in (('2024-1-5 3:04:05', '2024-02-01T00:00:00+00:00', True), ('2024-9-30 00:00:00', '2024-10-05T00:00:00+00:00', True), ('2024-9-30 00:00:00', '2024-09-29T23:59:59+00:00', False),
+                           ('2024-12-1 00:00:00', '2024-11-30T23:59:59+00:00', False), ('2024-2-01 9:00:00', '2024-02-01T10:00:00+00:00', True), ('2024-2-01 11:00:00', '2024-02-01T10:00:00+00:00', False),
+                           ('2024-02-1 9:00:00', '2024-02-01T08:59:59+00:00', False), ('2024-02-1 9:00:00', '2024-02-01T09:00:00+00:00', True)):
+        src = f"A\n<{TL} to='{to}'>\nB\n</{TL}>\nC\n"
+        exp = 'A\nC\n' if ready else src
+        out.append((dict(cfg(current=cur), mode='clean', source=src, ds='<', de='>'),
+                    (lambda e, t, c: lambda r: None if r.get('ok') and r.get('output') == e else f'a date written without zero padding (to={t}) is compared as an instant with now={c}: ' + json.dumps(r, ensure_ascii=False)[:160])(exp, to, cur)))
     for to in ('2020-1-5 9:00:00', '2020-1-05 09:0:0', '2020-01-5 9:5:7'):
         src = f"A\n<{TL} to='{to}'>\nB\n</{TL}>\nC\n"
         out.append((dict(cfg(), mode='clean', source=src, ds='<', de='>'),
@@ -681,6 +689,12 @@ def gen_dedent(seed, big):
         shift = max(0, f - t)
         extras = None
         texts = [rnd.choice(['x();', 'これ', 'y = 2; // é', '\u00a0nbsp();', '\u3000wide();', '\u00a0\u00a0two', 'cr();\r', '\x0bvt']) + str(i) + rnd.choice(['', '', '', '  ', '\t', ' \t ']) for i in range(n)]
+        if rnd.random() < 0.3:
+            # the same text on several lines of the body (also as the tail of a deeper line): every line is shifted by
+            # where IT stands, not by where its text first occurs
+            n = rnd.randint(2, 5)
+            levels = [f] + [max(0, f + rnd.randint(-1, 2)) for _ in range(n - 1)]
+            texts = [rnd.choice(['push(1);', '次();']) for _ in range(n)]
         final_nl = rnd.random() < 0.7
         tail = rnd.random() < 0.7
         src = 'q\n' + unit * t + f"<{RM} name='f1' unwrap-block>\n" + unit * t + 'if a {\n'
